@@ -31,7 +31,8 @@ def run_case(rng, res, idx):
 
     cfg = kh.make_config(rng, callables=False, dtypes=('float64', 'float32', 'float32', 'bfloat16'), factor_dtypes=(None, None, 'float32', 'bfloat16'),
                          inv_dtypes=('float32', 'float32', 'float64', 'bfloat16', 'float16'), kl=('const', 'big', 'none'))
-    if cfg['idt'] in ('float16', 'bfloat16'):
+    if kh.low_precision(cfg):
+        # keep the damping above the resolution of the low-precision dtype so that "finite inputs" is meaningful
         cfg['damping'] = ('const', max(cfg['damping'][1], 0.05))
     pdt = kh.DT[cfg['pdt']]
     model, in_shape, info = gen.runnable_model(rng, dtype=pdt, unsupported=True, max_layers=5)
@@ -127,7 +128,7 @@ def run_case(rng, res, idx):
         snapP = {n: (q.detach().clone(), meta(q)) for n, q in model.named_parameters()}
         snapB = {n: (b.detach().clone(), meta(b)) for n, b in model.named_buffers()}
         snapG = {n: (None if q.grad is None else (q.grad.detach().clone(), meta(q.grad))) for n, q in model.named_parameters()}
-        p.step()
+        kh.step(p, cfg)
         res.count('step_snapshots')
         for n, q in model.named_parameters():
             v, m = snapP[n]
